@@ -2058,11 +2058,18 @@ void compress_function_tables () {
           cftp->index[i] = (unsigned char)j++;
           if (j == 256)
             {
-              /* Woops.  Fix things up a bit */
+              /* Woops.  The one-byte index is full: this entry and everything
+               * after it stay uncompressed.  Only the first i slots of the index
+               * table are in use (num_compressed counts the entries before
+               * first_defined that are not in the table, i.e. those before
+               * first_overload), and the uncompressed tail has grown.
+               */
               cftp->first_defined = (function_index_t)(f_def = f_ov + i);
-              cftp->num_compressed = (unsigned short)i;
+              cftp->num_compressed = (unsigned short)f_ov;
+              n_def = n_tot - f_def;
               for (j = i; j < n_ov; j++)
                 cftp->index[j] = 255;
+              n_ov = i;
               j = 255;
               break;
             }
